@@ -19,10 +19,36 @@ Lemma pass_facts_ok :
   check_pass_facts translator_ok_logging server_censor_commands server_censor_guard_count
     parse_command_called_with_default parse_command_returns_lowered_verb pass_replies_literal
     pass_rest_sinks pass_decorator_rest_sinks dispatcher_rest_sinks
-    dispatcher_verb_var dispatcher_rest_var unknown_verb_reply_names
+    dispatcher_lookup_by_parsed_verb unknown_verb_reply_names
     login_pass_prefix login_pass_censor_after login_forwards_censor_after
     client_password_uses secret_raise_sites = true.
 Proof. vm_compute. reflexivity. Qed.
+
+(* no logging call is handed an object whose __repr__/__str__ prints the password it holds (class User) *)
+Lemma secret_objects_ok : secret_object_log_args = [].
+Proof. vm_compute. reflexivity. Qed.
+
+(* commands_mapping is a literal dict assigned once, and EVERY verb bound to the PASS handler is in the censor tuple *)
+Lemma pass_handler_verbs_censored :
+  commands_mapping_literal
+  && forallb (fun v => text_in v server_censor_commands) pass_handler_verbs
+  && text_in VERB_PASS pass_handler_verbs = true.
+Proof. vm_compute. reflexivity. Qed.
+
+(* a line reaches the PASS handler iff its dispatch key lower(verb) is bound to it (dispatcher_lookup_by_parsed_verb,
+   parse_command_returns_lowered_verb in pass_facts_ok): every such line, whatever its shape, is logged as verb + stars *)
+Theorem inst_line_reaching_pass_handler_is_censored l1 l2 :
+  In (lower (fst (split_command l1))) pass_handler_verbs ->
+  fst (split_command l1) = fst (split_command l2) ->
+  length (snd (split_command l1)) = length (snd (split_command l2)) ->
+  server_parse_command_log server_censor_commands l1 = server_parse_command_log server_censor_commands l2.
+Proof.
+  intros Hin Hv Hl.
+  pose proof pass_handler_verbs_censored as H.
+  apply andb_true_iff in H. destruct H as [H _]. apply andb_true_iff in H. destruct H as [_ H].
+  rewrite forallb_forall in H.
+  exact (same_key_same_length_same_log _ l1 l2 (H _ Hin) Hv Hl).
+Qed.
 
 Lemma censor_has_pass : In VERB_PASS server_censor_commands.
 Proof. apply text_in_spec. vm_compute. reflexivity. Qed.
